@@ -403,3 +403,53 @@ class NamedList(SOpaque):
 
     def deepcopy_hook(self):
         return NamedList(self.name + "'", self.names)
+
+
+class ElemList(SOpaque):
+    """a python list of unknown length known by the SET of its elements (each element carries a z3 term `.term`) and a
+    count: append / extend / len / truthiness.  Iterating it yields one generic element (produced by `witness`), which is
+    only good for building values the contract does not look at (e.g. an aggregated message)."""
+
+    def __init__(self, name, sort, members=None, count=None, witness=None):
+        super().__init__(name, cls=list)
+        self.sort = sort
+        self.members = members if members is not None else z3.EmptySet(sort)
+        self.count = count if count is not None else z3.IntVal(0)
+        self.witness = witness
+
+    @property
+    def nonempty(self):
+        return self.count > 0
+
+    def length(self, I):
+        from .symexec import SInt
+        return SInt(self.count)
+
+    def facts(self, x):
+        """what membership implies about the count"""
+        return z3.And(self.count >= 0, z3.Implies(z3.IsMember(x, self.members), self.count > 0),
+                      z3.Implies(self.count == 0, self.members == z3.EmptySet(self.sort)))
+
+    def iterate_hook(self, I):
+        if self.witness is None:
+            raise Unsupported(f"iteration over {self.name}")
+        return [self.witness(I)]
+
+    def getattr(self, I, name):
+        if name == "append":
+            def append(I2, a, k):
+                self.members = z3.SetAdd(self.members, a[0].term)
+                self.count = self.count + 1
+            return SFunc("model", append)
+        if name == "extend":
+            def extend(I2, a, k):
+                o = a[0]
+                if not isinstance(o, ElemList):
+                    raise Unsupported("extend of an element list by something else")
+                self.members = z3.SetUnion(self.members, o.members)
+                self.count = self.count + o.count
+            return SFunc("model", extend)
+        raise Unsupported(f"list method {name} on {self.name}")
+
+    def deepcopy_hook(self):
+        return ElemList(self.name + "'", self.sort, self.members, self.count, self.witness)
